@@ -54,13 +54,13 @@ func genDHCP(prop string, seed uint64, tier string) Scenario {
 	if tier == "quick" {
 		sc.Extra = map[string]int{"quick": 1}
 	}
-	// weights: disc req decl rel capture release adv tick foreign session(dora) fsfail
-	wts := []int{18, 26, 5, 4, 5, 3, 10, 5, 6, 12, 0}
+	// weights: disc req decl rel capture release adv tick foreign session(dora) fsfail contention
+	wts := []int{18, 26, 5, 4, 5, 3, 10, 5, 6, 12, 0, 6}
 	if prop == "C12" {
-		wts = []int{18, 26, 3, 3, 9, 6, 8, 4, 4, 14, 0}
+		wts = []int{18, 26, 3, 3, 9, 6, 8, 4, 4, 14, 0, 5}
 	}
 	if prop == "C18" {
-		wts = []int{10, 12, 3, 2, 4, 2, 6, 3, 4, 30, 3}
+		wts = []int{10, 12, 3, 2, 4, 2, 6, 3, 4, 30, 3, 4}
 		nops = 2 + r.n(14)
 		sc.Family = "lease"
 	}
@@ -90,6 +90,19 @@ func genDHCP(prop string, seed uint64, tier string) Scenario {
 			sc.Ops = append(sc.Ops, Op{K: "disc", M: m, P: p, N: r.n(3)}, Op{K: "req", M: m, P: p, N: r.n(3)})
 		case 10:
 			sc.Ops = append(sc.Ops, Op{K: "fsfail", D: r.n(2), X: r.n(700)})
+		case 11:
+			// two identities between OFFER and REQUEST: two clients, or one MAC under two client ids
+			m1, m2, p1, p2 := client(), client(), r.n(2), r.n(2)
+			if r.chance(1, 2) {
+				m2, p2 = m1, 1-p1
+			}
+			if r.chance(1, 3) {
+				sc.Ops = append(sc.Ops, Op{K: "capture", M: m1})
+				if m2 != m1 {
+					sc.Ops = append(sc.Ops, Op{K: "capture", M: m2})
+				}
+			}
+			sc.Ops = append(sc.Ops, Op{K: "disc", M: m1, P: p1}, Op{K: "disc", M: m2, P: p2}, Op{K: "req", M: m1, P: p1}, Op{K: "req", M: m2, P: p2})
 		}
 	}
 	return sc
@@ -116,7 +129,8 @@ func dhcpAdv(code int) time.Duration {
 	}
 }
 
-type dhClient struct {
+// dhIdent is the DHCP client state of one identity (a MAC with or without a client-id option).
+type dhIdent struct {
 	idx      int
 	mac      fb.MAC
 	xid      uint32
@@ -125,6 +139,15 @@ type dhClient struct {
 	offerXID [4]byte
 	lease    netip.Addr // last ACK received
 }
+
+type dhClient struct {
+	idx   int
+	mac   fb.MAC
+	ident [2]*dhIdent // [0] no client-id option, [1] client id 01+mac
+}
+
+// id returns the identity a message with option variant p speaks for.
+func (c *dhClient) id(p int) *dhIdent { return c.ident[p&1] }
 
 // holding is the conservative holder table of C11.
 type holding struct {
@@ -186,9 +209,13 @@ func cidKey(variant int, mac fb.MAC) string {
 }
 
 // candidate resolves a requested-address selector for a client.
-func (d *dhcpRun) candidate(c *dhClient, sel int, def netip.Addr) netip.Addr {
+func (d *dhcpRun) candidate(c *dhIdent, sel int, def netip.Addr) netip.Addr {
 	u := d.w.U
-	other := d.cl[(c.idx+1)%len(d.cl)]
+	oc := d.cl[(c.idx+1)%len(d.cl)]
+	other := oc.ident[0]
+	if !other.offer.IsValid() && !other.lease.IsValid() {
+		other = oc.ident[1]
+	}
 	switch sel {
 	case 0:
 		return def
@@ -229,7 +256,7 @@ var paramLists = [][]byte{{1, 3, 6, 15}, {3, 1, 6, 51}, {6, 3, 1, 121, 33}, nil}
 var hostnames = []string{"", "laptop", "phone"}
 
 // send builds and injects one client message and returns what the oracle must know about it.
-func (d *dhcpRun) send(c *dhClient, typ byte, o Op, ri reqInfo, srcIP netip.Addr, ciaddr netip.Addr, unicast bool, opts []fb.DHCPOpt) reqInfo {
+func (d *dhcpRun) send(c *dhIdent, typ byte, o Op, ri reqInfo, srcIP netip.Addr, ciaddr netip.Addr, unicast bool, opts []fb.DHCPOpt) reqInfo {
 	u := d.w.U
 	msg := fb.DHCP{Op: 1, XID: ri.xid, CHAddr: c.mac, CIAddr: ciaddr}
 	if o.T == 1 {
@@ -291,7 +318,11 @@ func runDHCPCore(e *exec, onAck func(d *dhcpRun, ri *reqInfo, y netip.Addr)) *dh
 	u := w.U
 	d := &dhcpRun{exec: e, onAck: onAck, rediscovered: map[string]bool{}, capturedOp: map[fb.MAC]bool{}, hold: map[netip.Addr]holding{}, lastAck: map[string]ackRec{}, offers: map[string]offerRec{}}
 	for i := 0; i < nDHCPClients; i++ {
-		d.cl = append(d.cl, &dhClient{idx: i, mac: u.MACs[world.MC1+i], xid: uint32(0x1000 * (i + 1))})
+		c := &dhClient{idx: i, mac: u.MACs[world.MC1+i]}
+		for v := 0; v < 2; v++ {
+			c.ident[v] = &dhIdent{idx: i, mac: c.mac, xid: uint32(0x1000*(i+1) + 0x800*v)}
+		}
+		d.cl = append(d.cl, c)
 	}
 	w.StartLoop()
 	simrt.Settle()
@@ -305,7 +336,7 @@ func runDHCPCore(e *exec, onAck func(d *dhcpRun, ri *reqInfo, y netip.Addr)) *dh
 		var ri *reqInfo
 		switch o.K {
 		case "disc":
-			c := d.cl[o.M%len(d.cl)]
+			c := d.cl[o.M%len(d.cl)].id(o.P)
 			if o.X == 0 || c.lastXID == ([4]byte{}) {
 				c.xid++
 				binary.BigEndian.PutUint32(c.lastXID[:], c.xid)
@@ -324,7 +355,7 @@ func runDHCPCore(e *exec, onAck func(d *dhcpRun, ri *reqInfo, y netip.Addr)) *dh
 			ri = &r
 			d.rediscovered[r.cid] = true
 		case "req":
-			c := d.cl[o.M%len(d.cl)]
+			c := d.cl[o.M%len(d.cl)].id(o.P)
 			xid := c.lastXID
 			if o.X == 1 {
 				c.xid++
@@ -378,7 +409,7 @@ func runDHCPCore(e *exec, onAck func(d *dhcpRun, ri *reqInfo, y netip.Addr)) *dh
 			rr := d.send(c, 3, o, r, src, ci, unicast, opts)
 			ri = &rr
 		case "decl":
-			c := d.cl[o.M%len(d.cl)]
+			c := d.cl[o.M%len(d.cl)].id(o.P)
 			ip := d.candidate(c, o.I, c.lease)
 			sid := u.HostIP
 			if o.S == 1 {
@@ -399,7 +430,7 @@ func runDHCPCore(e *exec, onAck func(d *dhcpRun, ri *reqInfo, y netip.Addr)) *dh
 			d.send(c, 4, o, reqInfo{xid: c.lastXID}, zero, zero, false, opts)
 			c.lease = netip.Addr{}
 		case "rel":
-			c := d.cl[o.M%len(d.cl)]
+			c := d.cl[o.M%len(d.cl)].id(o.P)
 			ip := d.candidate(c, o.I, c.lease)
 			sid := u.HostIP
 			if o.S == 1 {
@@ -510,17 +541,21 @@ func (d *dhcpRun) checkReplies(ri *reqInfo, o Op) {
 		if nReplies == 0 {
 			d.probe("request_unanswered")
 		}
-		c := d.clientOf(ri.mac)
+		c := d.identOf(ri)
 		if o.D == 1 && c != nil { // reply lost on the wire: the client never learns it
 			d.probe("reply_lost")
 		}
 	}
 }
 
-func (d *dhcpRun) clientOf(mac fb.MAC) *dhClient {
+// identOf returns the simulated client identity a request was sent for.
+func (d *dhcpRun) identOf(ri *reqInfo) *dhIdent {
 	for _, c := range d.cl {
-		if c.mac == mac {
-			return c
+		if c.mac == ri.mac {
+			if len(ri.cid) == 7 {
+				return c.ident[1]
+			}
+			return c.ident[0]
 		}
 	}
 	return nil
@@ -528,7 +563,7 @@ func (d *dhcpRun) clientOf(mac fb.MAC) *dhClient {
 
 func (d *dhcpRun) checkReply(ri *reqInfo, dh *refdec.DHCP, f *refdec.Frame, u *world.Universe) {
 	now := d.now()
-	c := d.clientOf(ri.mac)
+	c := d.identOf(ri)
 	lost := false
 	if d.step < len(d.sc.Ops) && d.sc.Ops[d.step].D == 1 {
 		lost = true
